@@ -1,10 +1,13 @@
 #!/bin/bash
-# Build the whole framework offline from files on disk.
+# Build the framework offline from files on disk: every check claimed in MANIFEST.json.
 set -e
 cd /verif/mc
 export CARGO_NET_OFFLINE=true
 cp /repo/Cargo.lock Cargo.lock
 mkdir -p /verif/work /verif/evidence /verif/replays
-cargo build -q --workspace 2>&1 | grep -v "^warning\|^ *|\|^ *=\|^ *-->\|^$\|^[0-9]* *|" | tail -20 || true
-cargo build -q --workspace
-echo "setup ok"
+ids=$(python3 -c "import json; print(' '.join(c['property_id'].lower() for c in json.load(open('/verif/MANIFEST.json'))['checks']))")
+pk=""
+for i in $ids; do pk="$pk -p $i"; done
+cargo build -q $pk 2>&1 | grep -E "^error" -A8 || true
+cargo build -q $pk
+echo "setup ok: $ids"
